@@ -20,23 +20,35 @@
 //!   (peptide index, m/z bits) sorted, and `min_value`.
 //!   * perm: the same build on permuted record orders — ALL permutations when there are <= 5 records, otherwise
 //!     reversal, a rotation and `nperm` shuffles drawn from `pseed`;
-//!   * pool: the same build inside rayon pools of 1,2,3,4,8,16,32 threads (`ThreadPool::install`);
+//!   * pool: the same build inside rayon pools of 1,2,3,4,5,6,8,16,32 threads (`ThreadPool::install`);
 //!   * hash: the same build from a freshly made `Parameters` (new `HashMap` seeds for the modification
 //!     tables, whose iteration order feeds the candidate order of `Peptide::apply`): run-to-run determinism
 //!     (before fix 8dee51f `position` / `semi_enzymatic` of merged duplicates varied here).
 //!   All perm/pool builds use a clone of one `Parameters` value, so that the only thing varied is the thing named.
 //!   mode 0: main stream. mode 1: additionally the clause "a decoy-tagged FASTA protein that contains the
 //!   peptide is listed too" is switched on in the driver (FASTA-supplied decoys; separate stream).
+//!
+//!   db8t <k> <threads>*k <the arguments of db8>
+//!     -> panic
+//!      | ok <pre> <npep> {peptide as in db8}*npep  T <k> {<threads> <npep_t> <ndup_t> <nbad_t> <digest_t>}*k
+//!   Block-boundary stream for the de-duplication of `reorder_peptides`: the same build inside rayon pools of
+//!   the listed sizes. `pre` = number of peptide forms handed to `reorder_peptides` (before de-duplication;
+//!   recomputed through the public API: `Fasta::digest`, `group_digests`, `Peptide::try_from/apply/reverse`).
+//!   The full database is listed for the FIRST pool size; for every pool size: entry count, number of entries
+//!   whose (sequence, modifications, nterm, cterm) was already seen (`ndup`), number of entries whose mass is
+//!   below its predecessor's or whose protein list is not strictly increasing (`nbad`), and an FNV-1a digest of
+//!   the canonical content (peptides, sorted fragments, min_value).
 use super::Info;
 use crate::proto::{Case, Out, Rng, Tier, Toks};
 use sage_core::database::{Builder, EnzymeBuilder, IndexedDatabase, Parameters};
-use sage_core::enzyme::Position;
+use sage_core::enzyme::{group_digests, EnzymeParameters, Position};
+use sage_core::peptide::Peptide;
 use sage_core::fasta::Fasta;
 use sage_core::ion_series::Kind;
-use std::collections::HashMap;
+use std::collections::{HashMap, HashSet};
 use std::sync::{Arc, Mutex, OnceLock};
 
-pub const OPS: &[&str] = &["db8"];
+pub const OPS: &[&str] = &["db8", "db8t"];
 pub const INFO: Info = Info {
     rule: "db8: FASTA records assembled from a pool of tryptic blocks over a small residue alphabet (I/L isobars, \
            M/C/Q/S for modifications), so that peptides are shared between proteins and occur at protein N-terminus, \
@@ -52,7 +64,11 @@ pub const INFO: Info = Info {
            without trace) or false (they are the decoys) (tagged accessions, peptides shared between tagged and untagged proteins); mass \
            window sometimes cutting the form list; directed cases: the two fixed C08 defects, palindromic / short \
            peptides whose reversal is a target, a FASTA without any peptide (panic class, trivial); every case is also \
-           rebuilt 4 times from a fresh Parameters value (new HashMap seeds). \
+           rebuilt 4 times from a fresh Parameters value (new HashMap seeds). db8t (block-boundary stream): FASTAs \
+           of 3-peptide proteins over a pool of m distinct peptides plus single-peptide proteins, so that every form \
+           is produced by up to four digest groups (N-terminal / internal / C-terminal / whole protein) and by its \
+           reversed decoy: the sorted pre-merge vector is runs of equal keys; sizes chosen so that it has about \
+           4096-, 4096+, 2x4096, 9k, 3x4096, 13k, 20k, 30k forms; built in pools of 1,2,3,4,5,6,8,16 threads. \
            non-trivial = at least two database entries and at least one entry with >= 2 proteins or >= 2 merged \
            sources; distinct by request line",
     serial: true,
@@ -276,7 +292,7 @@ fn pool(threads: usize) -> Arc<rayon::ThreadPool> {
         .clone()
 }
 
-const POOLS: &[usize] = &[1, 2, 3, 4, 8, 16, 32];
+const POOLS: &[usize] = &[1, 2, 3, 4, 5, 6, 8, 16, 32];
 
 fn all_perms(n: usize) -> Vec<Vec<usize>> {
     fn rec(k: usize, a: &mut Vec<usize>, out: &mut Vec<Vec<usize>>) {
@@ -315,7 +331,127 @@ fn orders(n: usize, nperm: usize, pseed: u64) -> Vec<Vec<usize>> {
     out
 }
 
+fn fnv(h: &mut u64, bytes: &[u8]) {
+    for b in bytes {
+        *h ^= *b as u64;
+        *h = h.wrapping_mul(0x100000001b3);
+    }
+}
+
+/// number of peptide forms `Parameters::digest` hands to `reorder_peptides`, through the public API
+fn pre_dedup_count(p: &Parameters, recs: &[(String, String)]) -> usize {
+    let fasta = Fasta::parse(fasta_text(recs), &p.decoy_tag, p.generate_decoys);
+    let enzyme: EnzymeParameters = p.enzyme.clone().into();
+    let groups = group_digests(fasta.digest(&enzyme));
+    let targets: HashSet<Vec<u8>> =
+        groups.iter().filter(|g| !g.reference.decoy).map(|g| g.reference.sequence.clone().into_bytes()).collect();
+    let mods: Vec<_> = p.variable_mods.iter().flat_map(|(a, b)| b.iter().map(|b| (*a, *b))).collect();
+    let mut n = 0;
+    for g in groups {
+        if let Ok(pep) = Peptide::try_from(g) {
+            for f in pep.apply(&mods, &p.static_mods, p.max_variable_mods) {
+                if f.monoisotopic >= p.peptide_min_mass && f.monoisotopic <= p.peptide_max_mass {
+                    let both = if p.generate_decoys { vec![f.reverse(), f] } else { vec![f] };
+                    n += both.iter().filter(|q| !q.decoy || !targets.contains(&q.sequence[..])).count();
+                }
+            }
+        }
+    }
+    n
+}
+
+/// debugging aid (VERIF_C08_SIMBLOCK=1, stderr only): how many runs of equal keys of the sorted pre-merge vector
+/// would be split by a de-duplication done per block of max(len / threads + 1, 4096) elements
+fn sim_block_splits(p: &Parameters, recs: &[(String, String)], threads: &[usize]) {
+    let fasta = Fasta::parse(fasta_text(recs), &p.decoy_tag, p.generate_decoys);
+    let enzyme: EnzymeParameters = p.enzyme.clone().into();
+    let groups = group_digests(fasta.digest(&enzyme));
+    let targets: HashSet<Vec<u8>> =
+        groups.iter().filter(|g| !g.reference.decoy).map(|g| g.reference.sequence.clone().into_bytes()).collect();
+    let mods: Vec<_> = p.variable_mods.iter().flat_map(|(a, b)| b.iter().map(|b| (*a, *b))).collect();
+    let mut pre: Vec<Peptide> = Vec::new();
+    for g in groups {
+        if let Ok(pep) = Peptide::try_from(g) {
+            for f in pep.apply(&mods, &p.static_mods, p.max_variable_mods) {
+                if f.monoisotopic >= p.peptide_min_mass && f.monoisotopic <= p.peptide_max_mass {
+                    let both = if p.generate_decoys { vec![f.reverse(), f] } else { vec![f] };
+                    pre.extend(both.into_iter().filter(|q| !q.decoy || !targets.contains(&q.sequence[..])));
+                }
+            }
+        }
+    }
+    pre.sort_by(|a, b| a.monoisotopic.total_cmp(&b.monoisotopic).then_with(|| a.initial_sort(b)));
+    let same = |a: &Peptide, b: &Peptide| {
+        a.sequence == b.sequence && a.modifications == b.modifications && a.nterm == b.nterm && a.cterm == b.cterm
+    };
+    let inside = (1..pre.len()).filter(|&i| same(&pre[i - 1], &pre[i])).count();
+    let mut line = format!("simblock: pre {} positions inside a run {}:", pre.len(), inside);
+    for &t in threads {
+        let b = (pre.len() / t + 1).max(4096);
+        let splits = (1..).map(|j| j * b).take_while(|&i| i < pre.len()).filter(|&i| same(&pre[i - 1], &pre[i])).count();
+        line.push_str(&format!(" t{}:{}", t, splits));
+    }
+    eprintln!("{}", line);
+}
+
+fn exec_threads(t: &mut Toks) -> Option<String> {
+    let threads = t.list(|t| t.usize())?;
+    if threads.is_empty() || threads.iter().any(|&k| k == 0 || k > 64) {
+        return None;
+    }
+    let r = read_req(t)?;
+    let p = parameters(&r);
+    let pre = pre_dedup_count(&p, &r.recs);
+    if std::env::var("VERIF_C08_SIMBLOCK").is_ok() {
+        sim_block_splits(&p, &r.recs, &threads);
+    }
+    let mut o = Out::new();
+    let mut tail = Out::new();
+    for (i, &k) in threads.iter().enumerate() {
+        let db = pool(k).install(|| build(&p, &r.recs));
+        let c = content(&db);
+        if i == 0 {
+            o.raw("ok").n(pre).n(c.npep).raw(&c.peps);
+        }
+        let mut seen: HashSet<Vec<u8>> = HashSet::with_capacity(db.peptides.len());
+        let (mut ndup, mut nbad) = (0usize, 0usize);
+        let mut last = f32::NEG_INFINITY;
+        for q in &db.peptides {
+            let mut key: Vec<u8> = q.sequence.to_vec();
+            for m in &q.modifications {
+                key.extend_from_slice(&m.to_bits().to_le_bytes());
+            }
+            for x in [q.nterm, q.cterm] {
+                key.push(x.is_some() as u8);
+                key.extend_from_slice(&x.unwrap_or(0.0).to_bits().to_le_bytes());
+            }
+            if !seen.insert(key) {
+                ndup += 1;
+            }
+            if q.monoisotopic < last || !q.proteins.windows(2).all(|w| w[0] < w[1]) {
+                nbad += 1;
+            }
+            last = q.monoisotopic;
+        }
+        let mut h: u64 = 0xcbf29ce484222325;
+        fnv(&mut h, c.peps.as_bytes());
+        for (a, b) in &c.frags {
+            fnv(&mut h, &a.to_le_bytes());
+            fnv(&mut h, &b.to_le_bytes());
+        }
+        for m in &c.minv {
+            fnv(&mut h, &m.to_le_bytes());
+        }
+        tail.n(k).n(c.npep).n(ndup).n(nbad).n(h);
+    }
+    o.raw("T").n(threads.len()).raw(&tail.finish());
+    Some(o.finish())
+}
+
 pub fn exec(op: &str, t: &mut Toks) -> Option<String> {
+    if op == "db8t" {
+        return exec_threads(t);
+    }
     if op != "db8" {
         return None;
     }
@@ -764,6 +900,84 @@ fn directed_decoy_listing(emit: &mut dyn FnMut(Case)) {
     emit_req(emit, &r, &["decoy_listing_stream", "directed"]);
 }
 
+
+/// a FASTA in which nearly every peptide occurs in several digest groups (protein N-terminus, internally,
+/// C-terminus, and sometimes as a whole protein): `m` distinct tryptic peptides, `4m` proteins that are
+/// concatenations of three of them, `m` single-peptide proteins. Every modified form is then produced by up to
+/// four groups, so that the sorted pre-merge vector consists of runs of 2-8 equal keys (generated decoys double
+/// them) and nearly every position is inside a run.
+fn dense_fasta(rng: &mut Rng, m: usize) -> Vec<(String, String)> {
+    const AA: &[u8] = b"AGILSMCQEDTVNFYWH";
+    let mut seen: HashSet<String> = HashSet::new();
+    let mut peps: Vec<String> = Vec::new();
+    while peps.len() < m {
+        let n = rng.range(6, 10) as usize;
+        let mut v: Vec<u8> = (0..n - 1).map(|_| *rng.pick(AA)).collect();
+        v.push(if rng.chance(1, 2) { b'K' } else { b'R' });
+        let q = String::from_utf8(v).unwrap();
+        if seen.insert(q.clone()) {
+            peps.push(q);
+        }
+    }
+    let mut recs: Vec<(String, String)> = Vec::new();
+    for i in 0..4 * m {
+        let q = format!("{}{}{}", rng.pick(&peps[..]), rng.pick(&peps[..]), rng.pick(&peps[..]));
+        recs.push((format!("X{}", i), q));
+    }
+    for i in 0..m {
+        recs.push((format!("F{}", i), rng.pick(&peps[..]).clone()));
+    }
+    rng.shuffle(&mut recs);
+    recs
+}
+
+fn dense_req(rng: &mut Rng, m: usize) -> Req {
+    let recs = dense_fasta(rng, m);
+    Req {
+        mode: 0,
+        pseed: 1,
+        nperm: 0,
+        gen: true,
+        tag: s("rev_"),
+        mc: 0,
+        min_len: 5,
+        max_len: 40,
+        cleave: s("KR"),
+        restrict: Some(b'P'),
+        c_terminal: true,
+        semi: false,
+        lo: 200.0,
+        hi: 6000.0,
+        max_var: 2,
+        // peptide-terminal mods: the same forms in every group; `[` with the mass of `^`: in N-terminal and
+        // whole-protein groups the acetylated forms are generated twice (overlapping candidates)
+        vars: vec![(s("^"), vec![42.010565]), (s("$"), vec![-0.984016]), (s("["), vec![42.010565])],
+        statics: if rng.chance(1, 2) { vec![(s("C"), 57.021465)] } else { vec![] },
+        kinds: 0b010010,
+        min_ion: 1,
+        bucket: 8192,
+        frag: false,
+        recs,
+    }
+}
+
+const BLOCK_THREADS: &[usize] = &[4, 1, 2, 3, 5, 6, 8, 16];
+
+fn emit_threads(emit: &mut dyn FnMut(Case), r: &Req, tags: &[&'static str]) {
+    let body = write_req(r);
+    let mut o = Out::new();
+    o.raw("db8t").n(BLOCK_THREADS.len());
+    for k in BLOCK_THREADS {
+        o.n(*k);
+    }
+    o.raw(body.strip_prefix("db8 ").unwrap());
+    let mut c = Case::new(o.finish()).tag("block_boundary_stream");
+    for t in tags {
+        c = c.tag(t);
+    }
+    emit(c);
+}
+
 pub fn gen(rng: &mut Rng, tier: Tier, emit: &mut dyn FnMut(Case)) {
     let thorough = tier == Tier::Thorough;
     directed(emit);
@@ -837,6 +1051,21 @@ pub fn gen(rng: &mut Rng, tier: Tier, emit: &mut dyn FnMut(Case)) {
         } else {
             emit_req(emit, &r, &["large"]);
         }
+    }
+    // block-boundary stream: databases whose pre-merge vector is (mostly) runs of equal keys, with about
+    // 4096-, 4096+, 2*4096, 9k, 3*4096, 13k, 20k, 30k forms before de-duplication (a blocked de-duplication with
+    // blocks of max(len / threads + 1, 4096) has its boundaries at 4096, 8192, ... or at len/threads + 1), built in
+    // pools of 1, 2, 3, 4, 5, 6, 8, 16 threads. ~35 forms per peptide of the pool.
+    let dense: &[(usize, &'static str)] = if thorough {
+        &[(100, "pre_below_4096"), (125, "pre_above_4096"), (235, "pre_about_2x4096"), (260, "pre_about_9k"),
+          (350, "pre_about_3x4096"), (375, "pre_about_13k"), (570, "pre_about_20k"), (860, "pre_about_30k"),
+          (125, "pre_above_4096"), (260, "pre_about_9k"), (375, "pre_about_13k"), (470, "pre_about_4x4096")]
+    } else {
+        &[(125, "pre_above_4096"), (260, "pre_about_9k"), (375, "pre_about_13k")]
+    };
+    for &(m, tag) in dense {
+        let r = dense_req(rng, m);
+        emit_threads(emit, &r, &[tag]);
     }
     // separate stream: FASTA-supplied decoys sharing peptides with targets, strict protein-listing clause
     directed_decoy_listing(emit);
